@@ -224,6 +224,40 @@ def run(ctx):
         gen_ok = True
         req_model += "From PqGen Require Import GenFilter.\n"
         extra_q = [(ctx.gen_dir, "PqGen")]
+        # -------- tie 1b: the row-group LOOP filter_out_stats regenerated (for-loops with early return over thrift objects,
+        # Base/PyObj.v) and proved to refine the hand model Impl/Filter.filter_out_stats (Impl/FilterLoop.v abstraction);
+        # fail closed -> the hand model + row-group correspondence carry the tie (translator_fallback_loop)
+        try:
+            ltext = py2coq.translate(src, ["filter_out_stats", "filter_out_cats", "keep_rg"], loops=True, known=["filter_val"])
+            open(os.path.join(ctx.gen_dir, "GenFilterLoop.v"), "w").write(ltext)
+            ok, out = C.coqc(os.path.join(ctx.gen_dir, "GenFilterLoop.v"), extra_q=[(ctx.gen_dir, "PqGen")])
+            if not ok:
+                raise py2coq.Unsupported("generated loop text does not type-check: " + out[-400:])
+            # its own small obligation: what the loop does for one column / one partition directory is independent of the state
+            # earlier iterations left behind (the position of `vmax, vmin = None, None`); NOT subject to the fallback below
+            bf = os.path.join(ctx.gen_dir, "GenBoundsFresh.v")
+            shutil.copy(os.path.join(C.COQ, "genproofs", "GenBoundsFresh.v"), bf)
+            ctx.coq_file(bf, extra_q=[(ctx.gen_dir, "PqGen")], obligations=["gen:" + n for n in C.theorem_names(bf)])
+            lp = open(os.path.join(C.COQ, "genproofs", "GenFilterLoopProofs.v")).read()
+            if quick:
+                # the fully general refinement (memoised bounds, converted types) takes ~35 s more: thorough tier
+                a, b = lp.index("(* ---- THOROUGH ONLY ---- *)"), lp.index("End Loop.")
+                lp = lp[:a] + lp[b:]
+            lproofs = os.path.join(ctx.gen_dir, "GenFilterLoopProofs.v")
+            open(lproofs, "w").write(lp)
+            # the refinement script is specific to the loop's shape: when it does not go through (a real change such as the
+            # hoisted `vmax, vmin = None, None`, but also a neutral restructuring) the tie falls back, closed, to the hand model +
+            # row-group correspondence + oracle, which produce the concrete inputs for a real change and stay silent otherwise
+            okp, outp = C.coqc(lproofs, extra_q=[(ctx.gen_dir, "PqGen")], timeout=900)
+            if not okp:
+                raise py2coq.Unsupported("refinement proof does not apply to the regenerated loop (%s): %s" % (C.failing_theorem(lproofs, outp), outp[-300:]))
+            for n in C.theorem_names(lproofs):
+                ctx.obligation("gen:loop:" + n, True, "re-proved on the regenerated filter_out_stats")
+            ctx.extra.setdefault("loop_print_assumptions", "Closed under the global context" in outp)
+            ctx.extra["translator"]["loop"] = {"status": "ok", "functions": ["filter_out_stats", "filter_out_cats", "keep_rg (the any([...]) decision of filter_row_groups)"], "external_calls": sorted(set(re.findall(r'\(ext "([^"]+)"', ltext)))}
+        except py2coq.Unsupported as e:
+            ctx.extra["translator"]["loop"] = {"status": "translator_fallback_loop", "reason": str(e)[:500]}
+            ctx.notes.append("translator_fallback_loop: " + str(e)[:300])
     except py2coq.Unsupported as e:
         # fail closed: hand model (committed copy) + correspondence carry the tie
         ctx.extra["translator"] = {"status": "translator_fallback", "reason": str(e)[:500]}
